@@ -1160,7 +1160,7 @@ pub fn main_c18(env: &Env, tier: &str, seed: u64, replay: Option<&str>) -> i32 {
 pub fn explicit_cells(seed: u64) -> Vec<Scenario> {
     let mut out = Vec::new();
     let mut rng = Rng::new(mix(seed, &[tag("C18"), tag("cells")]));
-    let gp = gen::GenParams { flavor: gen::Flavor::Git, sections: vec![gen::SectionKind::Modified], max_hunks: 1, pivot: 2, max_run: 3, with_commit_preamble: false, multibyte: false, no_newline_marker: false, similar_pairs: false, no_index_lines: false, no_prefix: false, line_number_class: 0, long_line_pct: 0 };
+    let gp = gen::GenParams { flavor: gen::Flavor::Git, sections: vec![gen::SectionKind::Modified], max_hunks: 1, pivot: 2, max_run: 3, with_commit_preamble: false, multibyte: false, no_newline_marker: false, similar_pairs: false, no_index_lines: false, no_prefix: false, line_number_class: 0, long_line_pct: 0, path_style: 0 };
     let lines = gen::generate(&mut rng, &gp);
     let diff = gen::to_bytes(&lines);
     let tokens = body_tokens(&lines);
